@@ -12,6 +12,7 @@ pub const RULE: &str = "generated constructor inputs (i128 counts, raw (i16,u64)
 pub const ASSUMPTIONS: &[&str] = &[
     "count of a library value := centuries*NPC + nanoseconds from to_parts()",
     "between +-2 centuries and the i64 limits try_truncated_nanoseconds may return Ok(count) or Err, never another number",
+    "open finding KF-total-ns-sign: total_nanoseconds() of a duration with century field <= -2 and non-zero nanoseconds is excluded and counted only if it returns exactly centuries*NPC - nanoseconds (what the finding predicts); any other value there is a violation",
 ];
 
 fn interesting(x: i128) -> bool {
@@ -320,7 +321,9 @@ fn readback_strategy() -> BS<ReadBack> {
 }
 
 fn readback_known(c: &ReadBack) -> Option<&'static str> {
-    if super::c01::reads_bad_total_ns(c.d.lib()) {
+    let d = c.d.lib();
+    // known only if the value read is exactly the one the finding predicts
+    if super::c01::reads_bad_total_ns(d) && canonical(d) && matches!(guard(move || d.total_nanoseconds()), Ok(t) if t == kf_total_ns(d)) {
         Some("KF-total-ns-sign")
     } else {
         None
@@ -331,10 +334,11 @@ fn readback_oracle(c: &ReadBack) -> Verdict {
     let d = lib!(c.d.lib());
     ensure!(canonical(d), "from_parts({}, {}) not canonical: {:?}", c.d.c, c.d.n, d.to_parts());
     let cd = count(d);
-    let tn = lib!(d.total_nanoseconds());
-    ensure!(tn == cd, "total_nanoseconds of {:?} = {}, want {}", d.to_parts(), tn, cd);
+    // the direction that does not depend on the open finding first
     let back = lib!(Duration::from_total_nanoseconds(cd));
     ensure!(back.to_parts() == d.to_parts(), "from_total_nanoseconds({}) = {:?}, want {:?}", cd, back.to_parts(), d.to_parts());
+    let tn = lib!(d.total_nanoseconds());
+    ensure!(tn == cd, "total_nanoseconds of {:?} = {}, want {}", d.to_parts(), tn, cd);
     let class = if d.to_parts().0 <= -2 { "century<=-2" } else if interesting(cd) { "interesting" } else { "plain" };
     Verdict::Pass(class, class != "plain")
 }
